@@ -252,6 +252,9 @@ func (idx *timeSeriesIndex) Load(
 	}
 	lowContainer := idx.ids.Keys().GetContainerAtIndex(highContainerIdx)
 	memTimeSeriesIDs := idx.ids.Values()[highContainerIdx]
+	// NOTE: field entries are shared by the loaders of all series containers which run in parallel,
+	// the current write buffer of a series must be kept in an entry of this loader.
+	var current fieldEntry
 
 	ctx.IterateLowSeriesIDs(lowContainer, func(seriesIdxFromQuery uint16, seriesIdxFromStorage int) {
 		memTimeSeriesID := memTimeSeriesIDs[seriesIdxFromStorage]
@@ -268,8 +271,8 @@ func (idx *timeSeriesIndex) Load(
 			// read field current write buffer
 			buf, ok := fm.getPage(memTimeSeriesID)
 			if ok {
-				fm.Reset(buf)
-				ctx.DownSampling(slotRange, seriesIdxFromQuery, int(fm.field.Index), fm)
+				current.Reset(buf)
+				ctx.DownSampling(slotRange, seriesIdxFromQuery, int(fm.field.Index), &current)
 			}
 		}
 	})
